@@ -176,9 +176,9 @@ func init() {
 	}
 	c02 := []string{"C02"}
 	parts02 := append(c02SeqParts(),
-		mk("C02", "one-winner-races", 120, 2400, false, c02, oneWinnerScenario),
+		mk("C02", "one-winner-races", 600, 12000, false, c02, oneWinnerScenario),
 		mk("C02", "forced-windows", 4, 40, false, []string{"C02", "C03", "C18"}, windowScenario),
-		mk("C02", "one-winner-races-race", 16, 160, true, c02, oneWinnerScenario),
+		mk("C02", "one-winner-races-race", 60, 1200, true, c02, oneWinnerScenario),
 	)
 	sup.Register(&sup.Check{
 		Prop: "C02", Level: "exploration",
@@ -198,9 +198,9 @@ func init() {
 	})
 	c18 := []string{"C18"}
 	parts18 := append(c18SeqParts(),
-		mk("C18", "property-owners", 150, 3000, false, c18, subdocOwnersScenario),
+		mk("C18", "property-owners", 800, 16000, false, c18, subdocOwnersScenario),
 		mk("C18", "forced-windows", 4, 40, false, []string{"C02", "C03", "C18"}, windowScenario),
-		mk("C18", "property-owners-race", 20, 200, true, c18, subdocOwnersScenario),
+		mk("C18", "property-owners-race", 80, 1600, true, c18, subdocOwnersScenario),
 	)
 	sup.Register(&sup.Check{
 		Prop: "C18", Level: "exploration",
